@@ -339,6 +339,12 @@ fn exec_special(kind: KindId, mode: Mode, env: &mut Env, hist: &[SOp], term: Ter
             let it = subj(|| IntoConcurrentIter::into_con_iter(a));
             run_lowlevel(env, it, hist, term);
         }),
+        (Mode::LowLevel, IterExact) | (Mode::LowLevel, IterUnk) => {
+            let src: std::vec::Vec<Elem<0>> = mk(len);
+            let p = Probe::new(src, if kind == IterExact { Hint::Exact } else { Hint::Unbounded }, false);
+            let it = subj(|| IterIntoConcurrentIter::into_con_iter(p));
+            run_lowlevel(env, it, hist, term);
+        }
         (Mode::Multi, Slice) | (Mode::Multi, VecRef) => {
             let src: std::vec::Vec<Elem<0>> = mk(len);
             env.src_base = src.as_ptr() as usize;
